@@ -532,3 +532,8 @@ def run(rep, tier):
              'element template for  arr[c]  and  arr[x+c]  reaches mem[base + c] with the value of any right-hand side (variable, sum, '
              'negation, comparison) -- import of the subscript templates C01-R16 for the index shapes that contain a constant', floor=8)
     c01.rule_subscripts(_report.Import(rep, 'R12', 'C01', key_filter=lambda r, k: any(t in k for t in ('arr[c', 'arr[x+c', 'arr[x-c'))), idx)
+    # R13: a constant (folded) condition selects the branch the run-time test would select (import of C01-R12, constant conditions)
+    rep.rule('R13', 'if statements whose condition is or contains a constant (2, 0, -1, 2 or a, ~(2 and a), ~(a = 2)) execute the branch that X '
+             'evaluation selects: any non-zero constant is true, as BRZ decides at run time (import of the if-templates C01-R12)', floor=10)
+    c01.rule_templates(_report.Import(rep, 'R13', 'C01', only_rules=('R12',), key_filter=lambda r, k: k.startswith('if ') and any(
+        t in k for t in ('if 2 ', 'if 0 ', 'if -1 ', '2 or a', '2 and a', 'a = 2'))), idx)
